@@ -35,10 +35,10 @@ func c14Sym(front string) {
 		name, age = v.String("name", 2), v.String("age", 2)
 		asc := 1
 		for i := 0; i < len(name); i++ {
-			asc &= v.B2I(name[i] < 0x80)
+			asc &= v.B2I(name[i] < 0x80) & v.B2I(name[i] != 0) // an environment value cannot hold NUL
 		}
 		for i := 0; i < len(age); i++ {
-			asc &= v.B2I(age[i] < 0x80)
+			asc &= v.B2I(age[i] < 0x80) & v.B2I(age[i] != 0)
 		}
 		v.Assume(asc == 1)
 	} else {
